@@ -96,6 +96,52 @@ def _has_inner_return(body: List[ast.stmt]) -> bool:
     return False
 
 
+def _contains_return(st: ast.AST) -> bool:
+    for n in ast.walk(st):
+        if isinstance(n, (ast.FunctionDef, ast.Lambda, ast.AsyncFunctionDef)) and n is not st:
+            continue
+        if isinstance(n, ast.Return):
+            return True
+    return False
+
+
+def _structure_returns(stmts: List[ast.stmt], ret: str):
+    """rewrite a block whose returns are all in tail position of if/else chains into a return-free block that assigns the
+    result to `ret`.  Returns (new statements, every path assigned ret) or None when a return sits in a loop / try / with or
+    after a partially returning conditional (that would need a flag: not expanded)."""
+    out: List[ast.stmt] = []
+    for i, st in enumerate(stmts):
+        if isinstance(st, ast.Return):
+            v = st.value if st.value is not None else ast.Constant(value=None)
+            out.append(ast.copy_location(ast.Assign(targets=[ast.Name(id=ret, ctx=ast.Store())], value=v), st))
+            return out, True
+        if isinstance(st, ast.If) and _contains_return(st):
+            b = _structure_returns(st.body, ret)
+            o = _structure_returns(st.orelse, ret)
+            if b is None or o is None:
+                return None
+            (bs, bl), (os_, ol) = b, o
+            rest = stmts[i + 1:]
+            if bl and ol:
+                out.append(ast.copy_location(ast.If(test=st.test, body=bs, orelse=os_), st))
+                return out, True
+            if not bl and not ol:
+                return None
+            r = _structure_returns(rest, ret)
+            if r is None:
+                return None
+            rs, rl = r
+            if bl:
+                out.append(ast.copy_location(ast.If(test=st.test, body=bs, orelse=os_ + rs), st))
+            else:
+                out.append(ast.copy_location(ast.If(test=st.test, body=bs + rs, orelse=os_), st))
+            return out, rl
+        if _contains_return(st):
+            return None
+        out.append(st)
+    return out, False
+
+
 class Inliner:
     def __init__(self, prog):
         self.prog = prog
@@ -202,10 +248,19 @@ class Inliner:
         if b is None:
             return None
         body0 = _strip_doc(callee.node.body)
+        structured = False
         if _has_inner_return(body0):
-            return None
+            if any(isinstance(n, (ast.Yield, ast.YieldFrom)) for n in ast.walk(callee.node)) or _structure_returns(copy.deepcopy(body0), "_") is None:
+                return None
+            structured = True
         prologue, body = self._instantiate(callee, b)
         out = list(prologue)
+        if structured:
+            ret = f"__inl{self.counter}_ret"
+            body, all_paths = _structure_returns(body, ret)
+            if not all_paths:
+                body = [ast.Assign(targets=[ast.Name(id=ret, ctx=ast.Store())], value=ast.Constant(value=None))] + body
+            body = body + [ast.Return(value=ast.Name(id=ret, ctx=ast.Load()))]
         last = body[-1] if body else None
         if isinstance(last, ast.Return):
             body = body[:-1]
@@ -301,6 +356,21 @@ class Inliner:
             if rep is not None:
                 out += rep
                 continue
+            if isinstance(st, ast.If):
+                # `if self._helper(..):` with a statement-like helper: evaluate it first, then test the result
+                inner = st.test.operand if isinstance(st.test, ast.UnaryOp) and isinstance(st.test.op, ast.Not) else st.test
+                if isinstance(inner, ast.Call):
+                    callee, _ = self._target(fi, inner)
+                    if callee is not None and self.expr_value_of(callee) is None:
+                        self.counter += 1
+                        tmp = f"__inl{self.counter}_test"
+                        asg = ast.copy_location(ast.Assign(targets=[ast.Name(id=tmp, ctx=ast.Store())], value=inner), st)
+                        ast.fix_missing_locations(asg)
+                        rep = self.expand_stmt(fi, asg, depth)
+                        if rep is not None:
+                            out += rep
+                            nm = ast.copy_location(ast.Name(id=tmp, ctx=ast.Load()), st.test)
+                            st.test = nm if inner is st.test else ast.copy_location(ast.UnaryOp(op=ast.Not(), operand=nm), st.test)
             st = self.expand_exprs(fi, st, depth)
             for fld in ("body", "orelse", "finalbody"):
                 sub = getattr(st, fld, None)
@@ -357,3 +427,7 @@ class Inliner:
                 h.absorbed = True
                 for nf in h.nested.values():
                     nf.absorbed = True
+                # the class no longer "has" the method as far as the rules are concerned: its code lives in the callers now
+                if h.cls is not None and h.cls.methods.get(h.name) is h:
+                    h.cls.absorbed_methods = getattr(h.cls, "absorbed_methods", {})
+                    h.cls.absorbed_methods[h.name] = h.cls.methods.pop(h.name)
